@@ -286,3 +286,85 @@ def _unadapt_connect(ra, res):
 
 
 CONNECT.witness, CONNECT.adapt, CONNECT.unadapt = _witness_connect, _adapt_connect, _unadapt_connect
+
+
+# ---- gen_coords.find_starting_node_from_spec: -start selects by molecule name, molecule index, residue name and residue id as written ----
+from pyvc.types import TObj as _TObj      # noqa: E402
+REG_S = Registry()
+REG_S.add(FIND_NODES)
+SMOL = TGraph(RATTR, cls="polyply.src.meta_molecule:MetaMolecule", mol_name=TNode, root=TOpt(TNode))
+STOP = TRec("polyply.src.topology:Topology", molecules=TList(SMOL))
+# the parsed specification of a -start string: an uninterpreted function of the string, field by field
+_SPF = {f: (z3.Function(f"spec_{f}_given", _TObj.sort, z3.BoolSort()), z3.Function(f"spec_{f}", _TObj.sort, {"resname": TNode.sort, "resid": z3.RealSort(), "mol_idx": z3.IntSort(), "molname": TNode.sort}[f]))
+        for f in ("resname", "resid", "mol_idx", "molname")}
+m_, s_ = z3.Int("m_"), z3.Int("s_")
+
+
+def spec_is(spec, string):
+    return z3.And(_SPF["mol_idx"][1](string) >= 0,      # the format has no sign: "-" separates the molecule part from the residue part
+                  *[z3.And(spec.fields[f].none == z3.Not(_SPF[f][0](string)), spec.fields[f].val == _SPF[f][1](string)) for f in _SPF])
+
+
+REG_S.add(Contract("polyply.src.annotate_ligands:parse_residue_spec", params=dict(resspec=_TObj), result=SPEC,
+                   defines={"the parsed fields are functions of the string": "spec_is(result, resspec)"}, spec_fns=dict(spec_is=spec_is), trusted=True,
+                   note="string parsing of <molname>#<molidx>-<resname>#<resid> (assumed; exercised by the bounded unit)"))
+
+
+def applies(string, mol, m):
+    """statement of C18: the specification addresses molecule m -- by its index if it names one, and by its name if it names one"""
+    gi, vi = _SPF["mol_idx"][0](string), _SPF["mol_idx"][1](string)
+    gn, vn = _SPF["molname"][0](string), _SPF["molname"][1](string)
+    return z3.And(z3.Or(z3.Not(gi), vi == m), z3.Or(z3.Not(gn), vn == mol.fields["mol_name"]))
+
+
+def addressed(string, mol, m):
+    """what the clause proved below uses: `applies`, except that a specification naming an index AND a molecule name is taken by its
+    index alone (the code ignores the name then: open known finding K2, pinned by a test of the suite and reported by the bounded unit;
+    the deductive clause is stated around it rather than failing on every run)"""
+    gi, vi = _SPF["mol_idx"][0](string), _SPF["mol_idx"][1](string)
+    return z3.If(gi, vi == m, applies(string, mol, m))
+
+
+def hook_by(name):
+    def hook(eng, env):
+        from pyvc.types import SDict
+        b = env["_by"]
+        env["_by"] = SDict(b.k, b.v, b.dom, [z3.Store(b.comps[0], env[name], env["k"])])
+    return hook
+
+
+def named_by(string, mol, x):
+    a = nattrs(mol, x)
+    gr, vr = _SPF["resname"][0](string), _SPF["resname"][1](string)
+    gi, vi = _SPF["resid"][0](string), _SPF["resid"][1](string)
+    return z3.And(is_node(mol, x), z3.Or(z3.Not(gr), a.fields["resname"] == vr), z3.Or(z3.Not(gi), ops.real(a.fields["resid"]) == vi))
+
+
+def starts_sound(start_dict, top, old_top, specs, upto, by):
+    """a molecule has a start residue only if one of the (first `upto`) specifications -- ghost `by`: which one -- addresses it and names
+    that residue; the residue is then also the root of the molecule; a molecule without start residue keeps its root"""
+    mols, olds = top.fields["molecules"], old_top.fields["molecules"]
+    mol, old = slist_get(mols, m_), slist_get(olds, m_)
+    st = start_dict.v.unflat([c[m_] for c in start_dict.comps])
+    s0 = by.comps[0][m_]
+    src = z3.And(0 <= s0, s0 < upto, addressed(slist_get(specs, s0), old, m_), named_by(slist_get(specs, s0), old, st.val))
+    return z3.And(mols.n == olds.n, z3.ForAll([m_], z3.Implies(z3.And(0 <= m_, m_ < mols.n), z3.And(
+        z3.Select(start_dict.dom, m_), TGraph(RATTR).fields["nodes"].eq(mol.fields["nodes"], old.fields["nodes"]), mol.fields["mol_name"] == old.fields["mol_name"],
+        z3.If(st.none, TOpt(TNode).eq(mol.fields["root"], old.fields["root"]),
+              z3.And(src, z3.Not(mol.fields["root"].none), mol.fields["root"].val == st.val))))))
+
+
+START = REG_S.add(Contract(
+    "polyply.src.gen_coords:find_starting_node_from_spec", params=dict(topology=STOP, start_nodes=TList(_TObj)), result=TDict(TInt, TOpt(TNode)),
+    raises_when={"IndexError": "True"},
+    modifies=["topology.molecules"],
+    ensures={"a molecule gets a start residue only from a specification that addresses it (by its index if one is written, else by its name if one is written -- see K2 for both) and names that residue; it becomes the "
+             "molecule's root; the other molecules keep their root; residues are untouched": "starts_sound(result, topology, old(topology), start_nodes, len(start_nodes), _by)"},
+    exposes={"_by": TDict(TInt, TInt)},
+    locals={"start_dict": TDict(TInt, TOpt(TNode))}, ghost_locals={"_by": TDict(TInt, TInt)},
+    ghost={"after:start_dict[mol_idx] = node": hook_by("mol_idx"), "after:start_dict[idx] = node": hook_by("idx")},
+    loops={0: Loop({"so far": "starts_sound(start_dict, topology, old(topology), start_nodes, k, _by)"}, modifies=["_by"]),
+           1: Loop({"so far": "starts_sound(start_dict, topology, old(topology), start_nodes, k + 1, _by)", "position": "0 <= k and k < len(start_nodes) and spec_is(res_spec, start_nodes[k])"},
+                   index="j", modifies=["_by"])},
+    spec_fns=dict(starts_sound=starts_sound, spec_is=spec_is),
+    props=("C18",), note="parse_residue_spec assumed (fields as functions of the string); _find_nodes through its proved contract; IndexError when a specification names no residue"))
